@@ -123,8 +123,7 @@ let () =
       let strict = List.fold_left (fun strict t ->
           if t.[0] <> 'B' then strict else
             match parse_ints (String.sub t 2 (String.length t - 2)) with
-            | [leaves; extra] when extra <> 0 -> strict   (* validated by the harness only: see main.go *)
-            | [leaves; extra] ->
+            | [leaves; extra; 1] when extra = 0 ->
               let bn = leaves + 1 + extra in
               let ba = Array.make_matrix bn bn false in
               let add i j = ba.(i).(j) <- true; ba.(j).(i) <- true in
